@@ -16,7 +16,7 @@ add("C19", "exploration",
 add("C06", "exploration",
     "runtime monitoring: hostile-input lattice driven by raw peers against the server in a child process; oracles = process liveness, net/http ErrorLog panic scan, per-input answer class, canary calls (same / fresh / independent connection), goroutine-table diff at quiescence",
     "Held on the executions explored: no input of the enumerated lattice (type substitution in every member, envelope faults, unparsable and truncated bodies, deep/large values, unsolicited responses, HTTP-level faults) killed, wedged or panicked any of the 7 server configurations; every input owed an answer got one; well-formed traffic from an independent client kept being served; goroutines with library frames did not grow with the number of inputs.",
-    "'No sequence of bytes' is sampled by an enumerated lattice plus seeded mutations (thorough); memory exhaustion is not driven; coverage-guided fuzzing is not used.",
+    "'No sequence of bytes' is sampled by an enumerated lattice plus seeded mutations (thorough); memory exhaustion is not driven; coverage-guided Go native fuzzing (iteration-bounded) runs over the three entry points.",
     "DESIGN.md section 4 C06")
 add("C14", "exploration",
     "runtime monitoring, differential: byte-identical generated requests against all server kinds/modes with identical registrations, normalised answers compared; same operations through the three client kinds, returned values compared",
